@@ -45,8 +45,12 @@ StepClauses(k, pre, s, removed, prevW, prevP) ==
       explained == \E r \in built : r.st = post /\ (r.exc = s.exc)
       newEdges == post.edges \ pre.edges
       how == IF s.exc # "" /\ explained THEN ":as_built_partial_effect" ELSE IF s.exc # "" THEN ":rejected_call" ELSE ""
-  IN {Tag(k, s.op, cl \o how) : cl \in WiringViolations(s.post) \ prevW}
-     \cup {Tag(k, s.op, cl \o how) : cl \in PinViolations(s.post, removed) \ prevP}
+      \* the operations the property quantifies over (remove_unloaded: C16 promises the same legality).  set_type, relabel and
+      \* the parser-only forms of add (recorded from the test suite as opaque steps) may leave an illegal circuit: what they
+      \* break is not charged to them, nor to the listed calls that follow (only NEW violations of a step are reported)
+      inScope == s.op \in {"add", "connect", "disconnect", "remove", "set_output", "add_blackbox", "add_subcircuit", "fill_blackbox", "remove_unloaded"}
+  IN (IF inScope THEN {Tag(k, s.op, cl \o how) : cl \in WiringViolations(s.post) \ prevW} ELSE {})
+     \cup (IF inScope THEN {Tag(k, s.op, cl \o how) : cl \in PinViolations(s.post, removed) \ prevP} ELSE {})
      \cup (IF s.exc # "" /\ newEdges # {}
            THEN {Tag(k, s.op, "rejected_call_added_edges" \o (IF explained THEN ":as_built_partial_effect" ELSE ":unexplained"))}
            ELSE {})
